@@ -22,7 +22,7 @@ Proof. intros H. apply InvK_getc. now apply HR_K. Qed.
 Lemma ck_step s e : (forall k, e <> EStartCons k) -> map ck (conss (step repaired s e)) = map ck (conss s).
 Proof.
   intros H. pose proof (f_equal v_ck (step_vw s e)) as V. cbn [v_ck vw] in V. rewrite V.
-  destruct e as [c0|k|r|a|g|a|g en|g v hr er|g|k|c0|c0|c0|c0 res|c0]; try reflexivity.
+  destruct e as [c0|k|r|a|g|a|g en|g v hr er|g|k|c0|c0|c0|c0 res|c0|c0]; try reflexivity.
   - destruct (nth_error (relacts s) a) as [x|]; [destruct (ra_pc x)|]; reflexivity.
   - exfalso. exact (H k eq_refl).
   - destruct (nth_error (conss s) c0) as [x|]; [destruct (ww_firepc x) as [[|]|]|]; reflexivity.
